@@ -37,6 +37,9 @@ def sequences(ctx, nmax_q=8, nmax_t=10):
 
 
 def build(ctx):
+    import harness.util as _U
+    _U.PRELUDE = 3      # every third object (by crc32 of its sequence) answers after a query history (util.prelude)
+    _U.DECORATE = 4     # every fourth sequence is handed to the constructor in another accepted spelling (util.decorate)
     seqs = sequences(ctx)
     res = pmap(_delta, seqs)
     cases = []
